@@ -146,7 +146,10 @@ svx_read_header	(SF_PRIVATE *psf)
 	psf->sf.format = SF_FORMAT_SVX ;
 
 	while (! done)
-	{	psf_binheader_readf (psf, "Em4", &marker, &chunk_size) ;
+	{	if (psf_binheader_readf (psf, "Em4", &marker, &chunk_size) < 8)
+		{	psf_log_printf (psf, "*** Unexpected end of file. Exiting parser.\n") ;
+			break ;
+			} ;
 
 		switch (marker)
 		{	case FORM_MARKER :
